@@ -131,6 +131,10 @@ func configsFor(part string, thorough bool) []*xcfg {
 			{Name: "cold-faults", Voters: v3, Fifo: true, MaxTerm: 3, MaxIndex: 4, Timeouts: 2, Proposals: 1, Drops: 1, MaxDepth: pick(7, 9)},
 			{Name: "warm-crash-drop", Voters: v3, Fifo: true, WarmLeader: true, MaxTerm: 4, MaxIndex: 5, Timeouts: 1, Proposals: 1, Crashes: 1, Drops: 2, MaxDepth: pick(6, 8)},
 			{Name: "prevote-checkquorum", Voters: v3, Fifo: true, PreVote: true, CheckQuorum: true, MaxTerm: 4, MaxIndex: 5, Timeouts: 2, Leases: 1, CheckQuorums: 1, Drops: 1, Proposals: 1, MaxDepth: pick(6, 8)},
+			{Name: "2v+w-one-regular-down-dev", Voters: []uint64{1, 2}, Witnesses: []uint64{3}, Fifo: true, MaxDev: 2, MaxTerm: 6, MaxIndex: 9, Kills: 1, Timeouts: 1, Drops: 1,
+				Script: []string{"T1", "H1", "P1", "H1"}},
+			{Name: "2v+w-checkquorum-one-down-dev", Voters: []uint64{1, 2}, Witnesses: []uint64{3}, Fifo: true, CheckQuorum: true, MaxDev: 2, MaxTerm: 6, MaxIndex: 9, Kills: 1, Timeouts: 1, CheckQuorums: 1,
+				Script: []string{"T1", "H1", "P1", "H1"}},
 			{Name: "prevote-only-partition-dev", Voters: v3, Fifo: true, PreVote: true, MaxDev: 2, MaxTerm: 6, MaxIndex: 9, Timeouts: 1, Partitions: 1, Proposals: 1,
 				Script: []string{"T1", "H1", "P1", "H1"}},
 			{Name: "checkquorum-only-partition-dev", Voters: v3, Fifo: true, CheckQuorum: true, MaxDev: 2, MaxTerm: 6, MaxIndex: 9, Timeouts: 1, Partitions: 1, Leases: 1, Proposals: 1,
